@@ -165,3 +165,29 @@ theorem evalOut_ne_panic (env : Env) (t : List Seg) (p : PanicSite) : evalOut en
   rw [evalOut_eq]; exact toOut_ne_panic _ p
 
 end CV.Template
+
+namespace CV.Template
+
+theorem litOkArg_imp_ML {s : Str} (h : litOkArg s = true) : litOkArgML s = true := by
+  simp only [litOkArg, litOkArgML, List.all_eq_true, Bool.and_eq_true, bne_iff_ne, ne_eq] at h ⊢
+  exact ⟨fun c hc => (h.1 c hc).1, h.2⟩
+
+mutual
+theorem seg_wf_imp_wfML : (s : Seg) → (inArg : Bool) → s.wf inArg = true → s.wfML inArg = true
+  | .lit s, inArg, h => by
+    cases inArg
+    · simpa [Seg.wf, Seg.wfML] using h
+    · simp only [Seg.wf, Seg.wfML, if_true] at h ⊢; exact litOkArg_imp_ML h
+  | .esc, _, _ => rfl
+  | .var _ _, _, h => by simpa [Seg.wf, Seg.wfML] using h
+  | .op n o arg, _, h => by
+    simp only [Seg.wf, Seg.wfML, Bool.and_eq_true] at h ⊢
+    exact ⟨h.1, list_wf_imp_wfML arg true h.2⟩
+theorem list_wf_imp_wfML : (l : List Seg) → (inArg : Bool) → wfL inArg l = true → wfLML inArg l = true
+  | [], _, _ => rfl
+  | s :: r, inArg, h => by
+    simp only [wfL, wfLML, Bool.and_eq_true] at h ⊢
+    exact ⟨⟨seg_wf_imp_wfML s inArg h.1.1, list_wf_imp_wfML r inArg h.1.2⟩, h.2⟩
+end
+
+end CV.Template
